@@ -181,7 +181,7 @@ class AskInteractively(Contract):
             ctx.prove("post:vector==prefix+answers", strings_equal(value, expect),
                       "the result is the version prefix followed by exactly the fields the accepted answers select")
         else:
-            ctx.fail("post:vector==prefix+answers", "unexpected result %r" % (type(value).__name__,))
+            ctx.fail("post:vector==prefix+answers", "unexpected result %r" % (type(value).__name__,), status="unknown")
         # the class accepts it: every field is metric:legal, each metric once, all mandatory asked
         ctx.prove("post:accepted-by-class", set(spec.BASE) <= set(asked) and len(set(asked)) == len(asked),
                   "every mandatory metric is asked, none twice; values are legal by construction of the selected field")
